@@ -26,7 +26,7 @@ Formats == <<
   [cnames |-> <<ADD>>, args |-> <<A("x", FALSE, FALSE, "str", FALSE, NoneV), A("z", FALSE, TRUE, "int", FALSE, NoneV)>>,
    opts |-> <<O(AA, "", "req", "str", FALSE, NoneV)>>]
 >>
-PoolOf(type) == CASE type = "str" -> {<<"x">>, <<"n", "u", "l", "l">>, <<"-", "q">>, <<"a", "d", "d">>, <<>>}
+PoolOf(type) == CASE type = "str" -> {<<"x">>, <<"n", "u", "l", "l">>, <<"-", "q">>, <<"a", "d", "d">>, <<>>, <<"a", "_", "b">>}
                   [] type = "int" -> {<<"7">>, <<"-", "3">>}
                   [] type = "bool" -> {<<"t", "r", "u", "e">>, <<"0">>}
 Styles == {"l=", "l_", "s+", "s_", "l", "s"}
